@@ -389,6 +389,11 @@ def matcher_loop(prog: Program, f: Func) -> tuple[ast.For, str, str, str]:
             ok = (isinstance(it, ast.Name) and it.id in src_vars) or (isinstance(it, ast.Call) and target in prog.resolve_call(f, it))
             if ok:
                 loops.append(n)
+    if len(loops) > 1:
+        # the greedy loop is the one that assigns label map entries
+        with_add = [l for l in loops if any(isinstance(c, ast.Call) and isinstance(c.func, ast.Attribute) and c.func.attr == "add_labelmap_entry" for c in ast.walk(l))]
+        if len(with_add) == 1:
+            loops = with_add
     if len(loops) != 1:
         raise AnchorMissing(f"{f.qual}: expected exactly one loop over the candidate pairs, found {len(loops)}")
     lp = loops[0]
